@@ -90,6 +90,15 @@ def run_case(case, ctx):
 
 
 def shard_main(ctx):
+    if ctx.shard == 3:
+        # one irregular survey of more than 65 536 traces, every run (vp/big.py)
+        from .. import big
+        case = {"src": big.IRREGULAR, "setting": {"rate": 16, "blockshape": [4, 4, 128]}, "mode": "heuristic", "ops": [], "shared_reader": True}
+        try:
+            ctx.evaluate(case, run_case)
+        except Violation as v:
+            ctx.failures.append({"kind": v.kind, "detail": v.detail, "case": case})
+            return
     ctx.explore("irregular", cases(), run_case, ctx.n(150, 2000))
 
 
